@@ -43,10 +43,34 @@ P = {
 SECTION = {k: "§4 " + k for k in P}
 
 
+def dynamic(pid):
+    """Category and a summary taken from the evidence file the check last wrote (so that MANIFEST and evidence agree)."""
+    path = os.path.join(ROOT, "evidence", pid + ".json")
+    if not os.path.exists(path):
+        return None, ""
+    ev = json.load(open(path))
+    cov = ev["coverage"]
+    items = cov.get("functions_under_contract", [])
+    proved = [i["name"] for i in items if i.get("status") == "proved"]
+    partial = [i["name"] for i in items if str(i.get("status", "")).startswith("partially")]
+    rest = [i["name"] for i in items if i["name"] not in proved and i["name"] not in partial]
+    txt = (f" Last run: {cov['obligations']} obligations generated, {cov['discharged']} discharged; fully proved items ({len(proved)}): "
+           + ", ".join(proved) + ".")
+    if partial:
+        txt += " Partially proved (open obligations listed in the evidence; bounded stand-in decides): " + ", ".join(partial) + "."
+    if rest:
+        txt += " Decided by the bounded stand-in only (not proof): " + ", ".join(rest) + "."
+    return ev["level"], txt
+
+
 def main():
     checks = []
     for pid in sorted(P):
         cat, text, extra = P[pid]
+        dcat, dtxt = dynamic(pid)
+        if dcat is not None:
+            cat = dcat
+            text = text + dtxt
         checks.append({
             "property_id": pid,
             "quick_cmd": f"./check {pid} --tier quick",
